@@ -20,6 +20,10 @@ pub struct RwCase {
     pub extraction_subst: bool,
     pub use_runner: bool,
     pub env_seed: u64,
+    /// 0: the rules' slots as written; k > 0: spelled with names of parameter slots of classes that exist when the rules are
+    /// built ($f<n>; rebuilt before every apply_rewrites call, once before a Runner run)
+    #[serde(default)]
+    pub rule_slot_variant: u8,
 }
 
 pub struct Sem<'a, N: Analysis<Fp>> {
@@ -145,6 +149,12 @@ pub fn check_semantics<N: Analysis<Fp>>(eg: &EGraph<Fp, N>, env_seed: u64, n_env
 fn run(c: &RwCase, obs: &mut Obs) -> Result<(), String> {
     let nm = Naming::Alpha;
     let pool = fp_rules();
+    let mk_rules = |eg: &EGraph<Fp>| -> Vec<Rewrite<Fp, ()>> {
+        c.rules
+            .iter()
+            .map(|i| if c.rule_slot_variant == 0 { build_fp_rule::<()>(&pool[*i % pool.len()]) } else { build_fp_rule_classnamed::<()>(&pool[*i % pool.len()], eg, c.rule_slot_variant as usize - 1) })
+            .collect()
+    };
     let rules: Vec<Rewrite<Fp, ()>> = c.rules.iter().map(|i| build_fp_rule::<()>(&pool[*i % pool.len()])).collect();
     let re = parse_tm::<Fp>(&c.start, &nm);
     let mut eg: EGraph<Fp> = crate::mixed::new_egraph((), c.extraction_subst);
@@ -169,6 +179,7 @@ fn run(c: &RwCase, obs: &mut Obs) -> Result<(), String> {
     if c.use_runner {
         let mut runner: Runner<Fp, (), (), String> = Runner::new(()).with_egraph(eg).with_iter_limit((iters as usize).saturating_sub(2)).with_node_limit(node_limit); // the Runner performs iter_limit + 2 iterations
         root = runner.egraph.add_expr(re);
+        let rules = mk_rules(&runner.egraph);
         let rep = runner.run(&rules);
         if rep.iterations > 1 {
             changed = 1;
@@ -180,6 +191,7 @@ fn run(c: &RwCase, obs: &mut Obs) -> Result<(), String> {
             if eg.total_number_of_nodes() > node_limit {
                 break;
             }
+            let rules = mk_rules(&eg);
             if apply_rewrites(&mut eg, &rules) {
                 changed += 1;
             } else {
@@ -222,6 +234,9 @@ fn run(c: &RwCase, obs: &mut Obs) -> Result<(), String> {
     }
     if c.extraction_subst {
         obs.label("ExtractionSubst");
+    }
+    if c.rule_slot_variant > 0 {
+        obs.label("rule-slots-named-like-class-slots");
     }
     if c.rules.iter().any(|i| !pool[*i % pool.len()].not_free.is_empty()) {
         obs.label("conditional-rule");
@@ -318,13 +333,14 @@ fn gen_start(ch: &[u16]) -> (Tm, Option<usize>) {
 fn strategy(max_iters: u8) -> BoxedStrategy<RwCase> {
     (
         proptest::collection::vec(any::<u16>(), 0..80),
-        proptest::collection::vec(0usize..32, 1..8),
+        proptest::collection::vec(0usize..34, 1..8),
         1u8..=max_iters,
         any::<bool>(),
         any::<bool>(),
         any::<u64>(),
+        any::<u8>(),
     )
-        .prop_map(|(ch, mut rules, iters, extraction_subst, use_runner, env_seed)| {
+        .prop_map(|(ch, mut rules, iters, extraction_subst, use_runner, env_seed, rv)| {
             let (start, planted) = gen_start(&ch);
             if planted == Some(usize::MAX) {
                 // symmetric-pair start term: commutativity (makes the repeated subterm's class symmetric) plus non-linear rules
@@ -336,7 +352,7 @@ fn strategy(max_iters: u8) -> BoxedStrategy<RwCase> {
                 // the rule whose left side was planted is part of the rule set
                 rules.push(p);
             }
-            RwCase { start, rules, iters, extraction_subst, use_runner, env_seed }
+            RwCase { start, rules, iters, extraction_subst, use_runner, env_seed, rule_slot_variant: if rv % 3 == 0 { 1 + (rv / 3) % 6 } else { 0 } }
         })
         .boxed()
 }
@@ -356,7 +372,7 @@ pub fn property(tier: Tier) -> Property {
                 c.rules.iter().map(|i| pool[*i % pool.len()].name).collect::<Vec<_>>().join(","),
                 c.iters,
                 if c.extraction_subst { "ExtractionSubst" } else { "SynExprSubst" },
-                                if c.use_runner { "Runner" } else { "apply_rewrites" }
+                                if c.use_runner { "Runner" } else { "apply_rewrites" }.to_string() + if c.rule_slot_variant > 0 { " rule slots named like existing class slots" } else { "" }
             )
         },
         rule: "start term over the F_5 language (summation over the index set {0,1}) (half of them a context around an instance of a rule's left side; one in six a symmetric four-name term used twice with permuted names under add/mul/neg, rewritten with commutativity and the non-linear rules), a subset of 1-7 of the 32 model-valid rules (conditions assembled from the library's slot_free_in / and / or / not) (assoc/comm/distrib, units, sum linearity both ways, scaling into and out of the binder, sum shift, let rules, b[x:=t] right sides), 1-4/5 iterations under apply_rewrites or Runner (node limit 1500), both substitution methods; every e-node of every class evaluated in 8 random environments against the class's Bellman-Ford-cheapest e-node, redundant slots given fresh random values, root against direct evaluation of the start term; non-trivial = rewriting changed the e-graph, a binder rule was in the set, the start term has a binder and some class has >= 3 e-nodes; distinct by rendered case",
